@@ -88,6 +88,22 @@ func (t *Tr) findContract(c *ssa.CallCommon) (*Contract, string) {
 }
 
 func (t *Tr) call(_ interface{}, c *ssa.CallCommon, instr ssa.Instruction) {
+	// does this call possibly run one of this function's closures?
+	t.closureCall = false
+	if _, ok := c.Value.(*ssa.MakeClosure); ok {
+		t.closureCall = true
+	}
+	if _, isFn := c.Value.Type().Underlying().(*types.Signature); isFn && !c.IsInvoke() {
+		if _, static := c.Value.(*ssa.Function); !static {
+			t.closureCall = true
+		}
+	}
+	for _, a := range c.Args {
+		if _, isFn := a.Type().Underlying().(*types.Signature); isFn {
+			t.closureCall = true
+		}
+	}
+	defer func() { t.closureCall = false }()
 	var res ssa.Value
 	if v, ok := instr.(*ssa.Call); ok {
 		res = v
@@ -121,15 +137,161 @@ func (t *Tr) call(_ interface{}, c *ssa.CallCommon, instr ssa.Instruction) {
 		t.vc.Trusted["pure "+key] = true
 		return
 	}
+	// call through a function value: if it is one of the package's pure functions
+	// under contract with this signature, that function's contract applies
+	if key == "" && !c.IsInvoke() {
+		if t.funcValueDispatch(c, args, res) {
+			return
+		}
+	}
 	// unmodelled call: everything may change
 	if key == "" {
 		key = "dynamic call " + c.Value.Name() + " : " + shortKey(c.Value.Type().String())
 	}
 	t.vc.Unmod[key]++
+	// a library function (no first-party code behind it) cannot reach the
+	// first-party accounting ghosts; everything else may change
+	if t.isLibraryCall(c) {
+		t.keepInternal = true
+		t.vc.Trusted["library calls without contract do not call back into first-party accounting hooks"] = true
+	}
 	t.havocAll(t.cur, false)
+	t.keepInternal = false
 	if res != nil {
 		t.havocVal(res)
 	}
+}
+
+// funcValueDispatch (defunctionalisation): for a call f(args) through a value
+// of function type, every first-party pure function g under contract in this
+// package with the same signature contributes `f == g ==> ensures_g`; if f is
+// none of them the call is unmodelled (everything is havocked on that branch).
+func (t *Tr) funcValueDispatch(c *ssa.CallCommon, args []ssa.Value, res ssa.Value) bool {
+	sig, ok := c.Value.Type().Underlying().(*types.Signature)
+	if !ok {
+		return false
+	}
+	type cand struct {
+		fn *ssa.Function
+		ct *Contract
+	}
+	var cands []cand
+	for _, ct := range t.w.CS.All {
+		if !ct.Pure || ct.Pkg != t.pkg {
+			continue
+		}
+		for _, n := range ct.Names {
+			fn := t.w.FuncKeys[n]
+			if fn == nil || fn.Signature.Recv() != nil || len(fn.FreeVars) > 0 {
+				continue
+			}
+			if types.Identical(fn.Signature, sig) {
+				cands = append(cands, cand{fn, ct})
+			}
+		}
+	}
+	if len(cands) == 0 {
+		return false
+	}
+	fv := t.val(c.Value)
+	var known []string
+	for ci, cd := range cands {
+		known = append(known, fmt.Sprintf("(= %s %s)", fv.S, t.val(cd.fn).S))
+		// the candidate's preconditions must hold if it is the one being called
+		penv := &Env{t: t, vars: map[string]Val{}, cur: t.cur, pkg: cd.ct.Pkg}
+		for i, p := range cd.fn.Params {
+			if i < len(args) {
+				penv.vars[p.Name()] = Val{T: t.val(args[i]), Ty: p.Type()}
+			}
+		}
+		for k, r := range cd.ct.Requires {
+			s, err := penv.evalClause(r.E)
+			if err != nil {
+				continue
+			}
+			g := fmt.Sprintf("(= %s %s)", fv.S, t.val(cd.fn).S)
+			ord := t.kindCount["fncall"]
+			t.checkCl(fmt.Sprintf("call@funcvalue#%d/%s/pre#%d", ord, shortKey(cd.fn.Name()), k), Cl{Q: fmt.Sprintf("(=> %s %s)", g, s.Q), U: fmt.Sprintf("(=> %s %s)", g, s.U)}, "precondition "+r.Src+" of "+cd.fn.Name()+" if it is the function called", c.Pos())
+			_ = ci
+		}
+	}
+	t.kindCount["fncall"]++
+	isKnown := t.define("fknown", SBool_, mkOr(known...))
+	// effects: none if f is a known pure function, anything otherwise
+	before := t.cur.clone()
+	t.vc.Unmod["dynamic call "+c.Value.Name()+" (unless it is one of the package's pure functions under contract)"]++
+	t.havocAll(t.cur, false)
+	after := t.cur
+	merged := before.clone()
+	t.genCount++
+	merged.gen = t.genCount
+	merged.h = map[string]string{}
+	for n, s := range t.vc.heapSort {
+		a, b := t.heapGet(after, n, s), t.heapGet(before, n, s)
+		if a == b {
+			merged.h[n] = a
+		} else {
+			merged.h[n] = t.define(n, s, fmt.Sprintf("(ite %s %s %s)", isKnown, b, a))
+		}
+	}
+	t.cur = merged
+	var rts []Term
+	if res != nil {
+		if _, isTup := res.Type().(*types.Tuple); isTup {
+			t.havocVal(res)
+			rts = t.tuples[res]
+		} else {
+			rts = []Term{t.havocVal(res)}
+		}
+	}
+	for _, cd := range cands {
+		env := &Env{t: t, vars: map[string]Val{}, cur: t.cur, old: before, pkg: cd.ct.Pkg}
+		for i, p := range cd.fn.Params {
+			if i < len(args) {
+				env.vars[p.Name()] = Val{T: t.val(args[i]), Ty: p.Type()}
+			}
+		}
+		for i, ns := range resultAliases(cd.fn.Signature) {
+			if i < len(rts) {
+				for k, nm := range ns {
+					if _, isParam := env.vars[nm]; isParam && k > 0 {
+						continue
+					}
+					env.vars[nm] = Val{T: rts[i], Ty: cd.fn.Signature.Results().At(i).Type()}
+				}
+			}
+		}
+		guard := fmt.Sprintf("(= %s %s)", fv.S, t.val(cd.fn).S)
+		for _, en := range cd.ct.Ensures {
+			s, err := env.evalClause(en.E)
+			if err != nil {
+				continue
+			}
+			t.assumeCl(Cl{Q: fmt.Sprintf("(=> %s %s)", guard, s.Q), U: fmt.Sprintf("(=> %s %s)", guard, s.U)}, false)
+		}
+	}
+	return true
+}
+
+// isLibraryCall: the callee is a function, method or interface method declared
+// outside the repository (and is not a call through a function value).
+func (t *Tr) isLibraryCall(c *ssa.CallCommon) bool {
+	var pkg *types.Package
+	if c.IsInvoke() {
+		pkg = c.Method.Pkg()
+		// an interface declared in a library can still be implemented by first-party code,
+		// except for the standard closing/reading/writing interfaces of values created by libraries
+		if pkg == nil {
+			return false
+		}
+	} else if f := t.staticCallee(c); f != nil {
+		if f.Pkg != nil {
+			pkg = f.Pkg.Pkg
+		} else if f.Origin() != nil && f.Origin().Pkg != nil {
+			pkg = f.Origin().Pkg.Pkg
+		}
+	}
+	return pkg != nil && !strings.HasPrefix(pkg.Path(), "github.com/saucelabs/forwarder")
 }
 
 // copyIn/copyOut: an argument that is the address of a scalar field or element
@@ -258,6 +420,10 @@ func (t *Tr) applyContract(ct *Contract, key string, args []ssa.Value, res ssa.V
 		}
 		env.vars[pn[i]] = pv
 	}
+	// call through a function value: `self` is that value
+	if c != nil && strings.HasPrefix(key, "type:") {
+		env.vars["self"] = Val{T: t.val(c.Value), Ty: c.Value.Type()}
+	}
 	// closure call: the callee's free variables denote the captured cells' current contents
 	if c != nil {
 		if mc, ok := c.Value.(*ssa.MakeClosure); ok {
@@ -329,7 +495,10 @@ func (t *Tr) applyContract(ct *Contract, key string, args []ssa.Value, res ssa.V
 	}
 	for i, ns := range rn {
 		if i < len(rts) {
-			for _, n := range ns {
+			for k, n := range ns {
+				if _, isParam := env.vars[n]; isParam && k > 0 {
+					continue // an alias (err, result) never shadows a parameter of that name
+				}
 				env.vars[n] = Val{T: rts[i], Ty: rt[i]}
 			}
 			if len(rn) == 1 {
@@ -485,6 +654,56 @@ func (t *Tr) applyModifies(ct *Contract, env *Env, key string) {
 		return
 	}
 	t.bumpNext(t.cur)
+	// heaps the callee is known not to write survive a `*`
+	kept := map[string]string{}
+	for _, pc := range ct.Preserves {
+		if strings.HasSuffix(pc.Src, ".*") {
+			// every field of the struct type
+			ts, err := parseTypeString(strings.TrimSuffix(pc.Src, ".*"))
+			if err != nil {
+				efail("%s:%d: %v", pc.File, pc.Line, err)
+			}
+			ty, err := t.w.resolveType(ts, ct.Pkg)
+			if err != nil {
+				continue // type of a package that is not loaded in this run: no such objects here
+			}
+			st, ok := ty.Underlying().(*types.Struct)
+			if !ok {
+				efail("%s:%d: preserves %s: not a struct type", pc.File, pc.Line, pc.Src)
+			}
+			_ = st
+			for n, hs := range t.fieldHeaps(ty, 0) {
+				kept[n] = t.heapGet(t.cur, n, hs)
+			}
+			continue
+		}
+		if x, ok := pc.E.(*SSel); ok {
+			if sty, fi := t.typeField(x, ct.Pkg); sty != nil {
+				set := map[string]bool{}
+				t.modsOfField(sty, sty.Underlying().(*types.Struct).Field(fi), set)
+				for n := range set {
+					ft := sty.Underlying().(*types.Struct).Field(fi).Type()
+					kept[n] = t.heapGet(t.cur, n, Sort("(Array Int "+string(t.vc.sortOf(ft))+")"))
+				}
+				continue
+			}
+		}
+		if id, ok := pc.E.(*SSel); ok {
+			if inner, ok := id.X.(*SSel); ok {
+				if pid, ok := inner.X.(*SIdent); ok {
+					if _, loaded := t.w.ByName[pid.Name]; !loaded {
+						continue
+					}
+				}
+			}
+		}
+		efail("%s:%d: preserves %s: not a Type.field", pc.File, pc.Line, pc.Src)
+	}
+	defer func() {
+		for n, v := range kept {
+			t.cur.h[n] = v
+		}
+	}()
 	for _, m := range ct.Modifies {
 		if m.Src == "*" {
 			t.havocAll(t.cur, true)
@@ -605,6 +824,30 @@ func (t *Tr) havocLocation(m Clause, env *Env, key string) {
 	default:
 		efail("%s:%d: unsupported modifies target %q", m.File, m.Line, m.Src)
 	}
+}
+
+// fieldHeaps: the heaps (with sorts) holding the fields of struct type ty,
+// including those of structs and arrays nested in it by value.
+func (t *Tr) fieldHeaps(ty types.Type, depth int) map[string]Sort {
+	out := map[string]Sort{}
+	st, ok := ty.Underlying().(*types.Struct)
+	if !ok || depth > 4 {
+		return out
+	}
+	for i := 0; i < st.NumFields(); i++ {
+		f := st.Field(i)
+		switch u := f.Type().Underlying().(type) {
+		case *types.Struct:
+			for n, s := range t.fieldHeaps(f.Type(), depth+1) {
+				out[n] = s
+			}
+		case *types.Array:
+			out[elemHeapName(u.Elem())] = t.elemHeapSort(u.Elem())
+		default:
+			out[fieldHeapName(ty, f)] = Sort("(Array Int " + string(t.vc.sortOf(f.Type())) + ")")
+		}
+	}
+	return out
 }
 
 // wholeHeapItem expands pkg(name) / elems(T) to the matching known heaps.
@@ -946,6 +1189,7 @@ func (t *Tr) frameAllowed() (map[string]bool, bool) {
 		}
 		t.modsOfClause(ct, m, allowed)
 	}
+	_ = 0
 	if allowed["*unknown*"] {
 		return nil, false
 	}
@@ -994,7 +1238,46 @@ func (t *Tr) frameFormula(st *State, allowed map[string]bool, only map[string]bo
 
 // frameAtReturn checks the function's own modifies clause: every heap not
 // named is unchanged on objects that existed at entry.
+// preservedHeaps: the heaps a `preserves` clause names.
+func (t *Tr) preservedHeaps(ct *Contract) map[string]bool {
+	out := map[string]bool{}
+	for _, pc := range ct.Preserves {
+		if strings.HasSuffix(pc.Src, ".*") {
+			ts, err := parseTypeString(strings.TrimSuffix(pc.Src, ".*"))
+			if err != nil {
+				continue
+			}
+			ty, err := t.w.resolveType(ts, ct.Pkg)
+			if err != nil {
+				continue
+			}
+			for n := range t.fieldHeaps(ty, 0) {
+				out[n] = true
+			}
+			continue
+		}
+		if x, ok := pc.E.(*SSel); ok {
+			if sty, fi := t.typeField(x, ct.Pkg); sty != nil {
+				t.modsOfField(sty, sty.Underlying().(*types.Struct).Field(fi), out)
+			}
+		}
+	}
+	return out
+}
+
 func (t *Tr) frameAtReturn() {
+	if ct := t.c; ct != nil && !ct.Trusted && len(ct.Preserves) > 0 {
+		// `modifies *` with a preserves list: the listed heaps are checked
+		only := t.preservedHeaps(ct)
+		f := t.frameFormula(t.cur, map[string]bool{}, only)
+		if t.curReach != "true" {
+			f = fmt.Sprintf("(=> %s %s)", t.curReach, f)
+		}
+		if f != "true" {
+			t.frameOb = append(t.frameOb, f)
+		}
+		return
+	}
 	allowed, ok := t.frameAllowed()
 	if !ok {
 		return
